@@ -112,7 +112,7 @@ package processor
 // ---------------------------------------------------------------- no-panic sweep over the handlers (C13)
 
 //@ func (p *Processor) broadcastSignedVAA(v *vaa.VAA)
-//@   props C13 C01
+//@   props C13 C01 C02 C03 C14
 //@   requires p != nil && vaa.wfVAA(v) && len(v.Signatures) <= 255
 //@   requires [quorum-signed] marked("quorumSigned", v)
 //@   ensures [sent-once] nsent(p.sendC) == old(nsent(p.sendC)) + 1
@@ -203,7 +203,7 @@ package processor
 //@   nopanic C13
 
 //@ func (p *Processor) handleInjection(ctx context.Context, v *vaa.VAA)
-//@   props C13 C01
+//@   props C13 C01 C02 C03 C14
 //@   ensures [progress-kept] progressKept(p)
 //@   requires Inv(p) && v != nil
 //@   requires InvSig(p)
@@ -231,7 +231,7 @@ package processor
 // guardian-set updates, injections and ticks" is "Inv is preserved by every handler from
 // every state satisfying it, under nondeterministic choice of the next event".
 //@ func (p *Processor) Run(ctx context.Context) (err error)
-//@   props C13 C01
+//@   props C13 C01 C02 C03 C14
 //@   requires Inv(p) && p.gst != nil && InvSig(p)
 //@   modifies *
 //@   nopanic C13
